@@ -625,4 +625,208 @@ theorem own_parse_congr : ∀ s, Congr s := by
         subst hr1 hr2
         exact hra r1' r2' h1 h2
 
+/-! ### the copy a caller makes looks like the original at every depth -/
+
+theorem all2_mono_mem {α β : Type} {R S : α → β → Prop} : ∀ {l1 : List α} {l2 : List β},
+    All2 R l1 l2 → (∀ a b, b ∈ l2 → R a b → S a b) → All2 S l1 l2 := by
+  intro l1 l2 h
+  induction h with
+  | nil => intro _; exact .nil
+  | cons hab _ ih =>
+    intro hrs
+    exact .cons (hrs _ _ (List.mem_cons_self ..) hab) (ih (fun a b hb => hrs a b (List.mem_cons_of_mem _ hb)))
+
+theorem all2_map_eq {α β γ : Type} {g1 : α → γ} {g2 : β → γ} : ∀ {l1 : List α} {l2 : List β},
+    All2 (fun a b => g1 a = g2 b) l1 l2 → l1.map g1 = l2.map g2 := by
+  intro l1 l2 h
+  induction h with
+  | nil => rfl
+  | cons hab _ ih => simp only [List.map_cons, hab, ih]
+
+theorem below_field {σ : GStore} {fs : Entries} (hb : Below σ (.agg fs)) : ∀ p ∈ fs, Below σ p.2 := by
+  intro p hp f x hx
+  apply hb (f + 1)
+  simp only [reach, List.mem_flatMap]
+  exact ⟨p, hp, hx⟩
+
+def CopyLook (F : Nat) : Prop :=
+  ∀ (σ : GStore) (v : GVal), Below σ v →
+    GExt σ.next σ (copy true F σ v).1 ∧ Look (copy true F σ v).1.heap (copy true F σ v).2 σ.heap v ∧
+    Below (copy true F σ v).1 (copy true F σ v).2
+
+/-- the copied entries: same keys, each looks like its original (seen in the store the pass started in) -/
+def CopyRel (σ z : GStore) (q p : Nat × GVal) : Prop := q.1 = p.1 ∧ Look z.heap q.2 σ.heap p.2 ∧ Below z q.2
+
+theorem look_fold_spec (F : Nat) (hc : CopyLook F) (ps : Entries) :
+    ∀ (σ : GStore) (out : Entries), (∀ p ∈ ps, Below σ p.2) →
+      GExt σ.next σ (ps.foldl (gstep F) (σ, out)).1 ∧
+      ∃ new, (ps.foldl (gstep F) (σ, out)).2 = out ++ new ∧ All2 (CopyRel σ (ps.foldl (gstep F) (σ, out)).1) new ps := by
+  induction ps with
+  | nil => intro σ out _; exact ⟨GExt.refl _ _, [], by simp, .nil⟩
+  | cons p ps ih =>
+    intro σ out hb
+    obtain ⟨e1, l1, b1⟩ := hc σ p.2 (hb p (List.mem_cons_self ..))
+    have hb1 : ∀ p' ∈ ps, Below (copy true F σ p.2).1 p'.2 :=
+      fun p' hp' => (hb p' (List.mem_cons_of_mem _ hp')).ext e1
+    obtain ⟨e2, new, hout, hall⟩ := ih (copy true F σ p.2).1 (out ++ [(p.1, (copy true F σ p.2).2)]) hb1
+    simp only [List.foldl_cons, gstep] at *
+    refine ⟨e1.trans (e2.mono e1.1), (p.1, (copy true F σ p.2).2) :: new, by rw [hout]; simp, ?_⟩
+    refine .cons ⟨rfl, fun f => ?_, b1.ext e2⟩ (all2_mono_mem hall (fun q p' hp' hq => ⟨hq.1, fun f => ?_, hq.2.2⟩))
+    · rw [unfold_frame f _ _ _ _ e2 (b1 f)]
+      exact l1 f
+    · rw [hq.2.1 f]
+      exact unfold_frame f _ _ _ _ e1 (hb p' (List.mem_cons_of_mem _ hp') f)
+
+/-- **copy_look**: the deep copy (`deepCloneValue`, what a caller does when it builds an equal input again) looks like the
+    original at EVERY depth, whatever the fuel of the copy, and everything reachable from it is allocated. -/
+theorem copy_look (F : Nat) : CopyLook F := by
+  induction F with
+  | zero => intro σ v hb; exact ⟨GExt.refl _ _, fun _ => rfl, hb⟩
+  | succ F ih =>
+    intro σ v hb
+    cases v with
+    | scalar k => exact ⟨GExt.refl _ _, fun _ => rfl, hb⟩
+    | nil => exact ⟨GExt.refl _ _, fun _ => rfl, hb⟩
+    | ref l =>
+      obtain ⟨e1, new, hout, hall⟩ := look_fold_spec F ih (readG σ.heap l) σ [] (below_entry hb)
+      rw [copy_ref]
+      generalize hz : (readG σ.heap l).foldl (gstep F) (σ, []) = z at *
+      simp only [List.nil_append] at hout
+      have ea : GExt z.1.next z.1 (galloc z.1 z.2).1 := galloc_ext _ _ _ (Nat.le_refl _)
+      have hnode : readG (galloc z.1 z.2).1.heap z.1.next = new := by simp [readG, galloc_get, hout]
+      refine ⟨e1.trans (ea.mono e1.1), fun f => ?_, fun f x hx => ?_⟩
+      · cases f with
+        | zero => rfl
+        | succ f =>
+          simp only [unfold, hnode]
+          congr 1
+          apply all2_map_eq
+          exact all2_mono (fun q p hq => by
+            simp only [Prod.mk.injEq]
+            exact ⟨hq.1, by rw [unfold_frame f _ _ _ _ ea (hq.2.2 f)]; exact hq.2.1 f⟩) hall
+      · cases f with
+        | zero => cases hx
+        | succ f =>
+          simp only [reach, hnode, List.mem_cons, List.mem_flatMap] at hx
+          rcases hx with rfl | ⟨q, hq, hx⟩
+          · simp [galloc]
+          · have hqb : Below z.1 q.2 := by
+              have : ∀ {l1 : Entries} {l2 : Entries}, All2 (CopyRel σ z.1) l1 l2 → ∀ q ∈ l1, Below z.1 q.2 := by
+                intro l1 l2 h
+                induction h with
+                | nil => intro q hq; cases hq
+                | cons hab _ ih2 =>
+                  intro q hq
+                  simp only [List.mem_cons] at hq
+                  rcases hq with rfl | hq
+                  · exact hab.2.2
+                  · exact ih2 q hq
+              exact this hall q hq
+            rw [(g_graph_frame f z.1.next z.1 _ q.2 ea (hqb f)).1] at hx
+            exact Nat.lt_of_lt_of_le (hqb f x hx) ea.1
+    | agg fs =>
+      obtain ⟨e1, new, hout, hall⟩ := look_fold_spec F ih fs σ [] (below_field hb)
+      rw [copy_agg]
+      generalize hz : fs.foldl (gstep F) (σ, []) = z at *
+      simp only [List.nil_append] at hout
+      refine ⟨e1, fun f => ?_, fun f x hx => ?_⟩
+      · cases f with
+        | zero => rfl
+        | succ f =>
+          simp only [unfold, hout]
+          congr 1
+          apply all2_map_eq
+          exact all2_mono (fun q p hq => by
+            simp only [Prod.mk.injEq]
+            exact ⟨hq.1, hq.2.1 f⟩) hall
+      · cases f with
+        | zero => cases hx
+        | succ f =>
+          simp only [reach, hout, List.mem_flatMap] at hx
+          obtain ⟨q, hq, hx⟩ := hx
+          have : ∀ {l1 : Entries} {l2 : Entries}, All2 (CopyRel σ z.1) l1 l2 → ∀ q ∈ l1, Below z.1 q.2 := by
+            intro l1 l2 h
+            induction h with
+            | nil => intro q hq; cases hq
+            | cons hab _ ih2 =>
+              intro q hq
+              simp only [List.mem_cons] at hq
+              rcases hq with rfl | hq
+              · exact hab.2.2
+              · exact ih2 q hq
+          exact this hall q hq f x hx
+
+/-! ### histories: a later Parse of an equal input answers what an earlier one answered -/
+
+theorem agree_refl (h : GHeap) : ∀ s, Agree h h s := by
+  intro s
+  induction s with
+  | any => trivial
+  | str _ => trivial
+  | lit _ ms => intro m _; rfl
+  | dflt d t ih => exact ⟨rfl, ih⟩
+  | obj _ _ kids ih => intro k; exact ih k
+  | slice t ih => exact ih
+  | record t ih => exact ih
+  | union a b iha ihb => exact ⟨iha, ihb⟩
+
+theorem runC_append (fam : List GSchema) (ins : List GVal) (st : CState) (a b : List CStep) :
+    runC fam ins st (a ++ b) = runC fam ins (runC fam ins st a) b := by
+  simp [runC, List.foldl_append]
+
+/-- **own_hist_same_answer** — the property's third sentence for the `own` language, about ANSWERS: take any history of
+    Parse calls and deep in-place mutations of earlier results (`steps1`), let the caller parse a newly built copy of
+    input `i` with schema `j`, let any further history follow (`steps2`: more parses with any schema of the family, deep
+    mutation of ANY result obtained so far), and let the caller parse a newly built copy of input `i` with schema `j` again:
+    the verdict is the same and the two answers look the same. -/
+theorem own_hist_same_answer (fam : List GSchema) (ins : List GVal) (σ0 : GStore)
+    (hfam : ∀ s ∈ fam, NoRet s ∧ OwnedS σ0.next σ0.heap s) (hins : ∀ v ∈ ins, Below σ0 v)
+    (steps1 steps2 : List CStep) (j i : Nat) (s : GSchema) (v : GVal) (hj : fam[j]? = some s) (hi : ins[i]? = some v) :
+    let st1 := runC fam ins { σ := σ0, results := [] } steps1
+    let st2 := runC fam ins st1 steps2
+    let a1 := parseS s (copy true gdepth st1.σ v).1 (copy true gdepth st1.σ v).2
+    let a2 := parseS s (copy true gdepth st2.σ v).1 (copy true gdepth st2.σ v).2
+    a1.2.isSome = a2.2.isSome ∧
+    ∀ r1 r2, a1.2 = some r1 → a2.2 = some r2 → ser gdepth a1.1.heap r1 = ser gdepth a2.1.heap r2 := by
+  intro st1 st2 a1 a2
+  have hs := List.mem_of_getElem? hj
+  have hv := List.mem_of_getElem? hi
+  have hins' : ∀ v ∈ ins, ∀ x ∈ reach gdepth σ0.heap v, x < σ0.next := fun v hv => hins v hv gdepth
+  have e1 : GExt σ0.next σ0 st1.σ := (own_hist fam ins σ0 hfam hins' steps1).1
+  have e2 : GExt σ0.next σ0 st2.σ := by
+    have := (own_hist fam ins σ0 hfam hins' (steps1 ++ steps2)).1
+    rwa [runC_append] at this
+  have b0 := hins v hv
+  obtain ⟨c1, l1, bc1⟩ := copy_look gdepth st1.σ v (b0.ext e1)
+  obtain ⟨c2, l2, bc2⟩ := copy_look gdepth st2.σ v (b0.ext e2)
+  have E1 : GExt σ0.next σ0 (copy true gdepth st1.σ v).1 := e1.trans (c1.mono e1.1)
+  have E2 : GExt σ0.next σ0 (copy true gdepth st2.σ v).1 := e2.trans (c2.mono e2.1)
+  have ho := (hfam s hs).2
+  exact own_parse_congr s _ _ _ _ σ0.next σ0.next E1.1 E2.1 (owned_ext _ _ _ E1 s ho) (owned_ext _ _ _ E2 s ho)
+    (agree_ext _ _ σ0 _ σ0 _ E1 E2 s ho ho (agree_refl _ s))
+    (fun f => by rw [l1 f, l2 f, unfold_frame f _ _ _ v e1 (b0 f), unfold_frame f _ _ _ v e2 (b0 f)]) bc1 bc2
+
+/-- the hypotheses are satisfiable, and the conclusion speaks about an accepted input (the family of `own_hist`'s example) -/
+example :
+    let fam := [GSchema.lit false [.ref 1], .obj .strip [9] (fun _ => .lit false [.ref 1]), .dflt (.ref 1) (.slice (.lit false [.ref 1]))]
+    (∀ v ∈ [GVal.ref 2, .ref 3], Below σw v) ∧ (parseS (GSchema.lit false [.ref 1]) σw (.ref 2)).2.isSome = true ∧ fam.length = 3 := by
+  refine ⟨fun v hv => ?_, by decide, rfl⟩
+  have hr : ∀ f l, l = 2 ∨ l = 3 → reach (f + 1) σw.heap (.ref l) = [l] := by
+    intro f l hl
+    rcases hl with rfl | rfl <;> simp [reach, readG, σw, gupd, reach_scalar]
+  have hb : ∀ l, l = 2 ∨ l = 3 → Below σw (.ref l) := by
+    intro l hl f x hx
+    cases f with
+    | zero => cases hx
+    | succ f =>
+      rw [hr f l hl] at hx
+      simp only [List.mem_singleton] at hx
+      rw [hx]
+      show l < 4
+      rcases hl with rfl | rfl <;> decide
+  simp only [List.mem_cons, List.not_mem_nil, or_false] at hv
+  rcases hv with rfl | rfl
+  · exact hb 2 (Or.inl rfl)
+  · exact hb 3 (Or.inr rfl)
+
 end Gozod.C15
